@@ -19,8 +19,10 @@ Tmpls == << [t |-> PH(2, 1), gb |-> <<>>],
             [t |-> [op |-> "and", es |-> <<EQ(2, 1), NOTe(EQ(3, 2))>>], gb |-> <<>>],                \* no placeholder
             [t |-> NOTe([op |-> "or", es |-> <<PH(2, 1), PH(2, 2), PH(3, 3)>>]), gb |-> <<2, 3>>],
             [t |-> [op |-> "or", es |-> <<[op |-> "and", es |-> <<PH(2, 2), EQ(3, 2)>>], PH(2, 2)>>], gb |-> <<>>],
-            [t |-> PH(1, 1), gb |-> <<>>] >>                                                          \* unknown column
-ArgLists == UNION {[1..k -> {1, 2, 3, 4}] : k \in 0..MaxArgs}
+            [t |-> PH(1, 1), gb |-> <<>>],
+            [t |-> [op |-> "and", es |-> <<PH(2, 10), NOTe(PH(3, 9))>>], gb |-> <<>>] >>                 \* two-digit numbers                                                          \* unknown column
+LongArgs == {<<1, 2, 3, 4, 1, 2, 3, 4, 2, 1>>, <<4, 3, 2, 1, 4, 3, 2, 1, 1, 2>>, <<1, 1, 1, 1, 1, 1, 1, 1, 3>>, <<2, 2, 2, 2, 2, 2, 2, 1, 2, 2, 4>>, <<3, 3, 3, 3, 3, 3, 3, 2, 1, 3>>}
+ArgLists == UNION {[1..k -> {1, 2, 3, 4}] : k \in 0..MaxArgs} \cup LongArgs
 
 \* the statement state machine
 VARIABLES stmt, last
